@@ -333,7 +333,8 @@ def file_check(args):
     import os
     from corankco import utils
     from vf import mstr
-    spec_lines, refuse = args
+    spec_lines, refuse = args[:2]
+    PATH = args[2] if len(args) > 2 else "/nowhere/dataset.txt"
     out = []
     fs, lines, spans, evars_all, pre_c = {}, [], [], [], []
     off = 0
@@ -359,7 +360,12 @@ def file_check(args):
         spans.append((off, len(chars)))
         off += len(chars) + 1
     mstr.SIDE.clear()
-    PATH = "/nowhere/dataset.txt"
+    # modelled file system: working directory /cwd, existing directories DIRS, no file yet (CPython's os.path.isdir("") is False)
+    import posixpath
+    CWD, DIRS = "/cwd", {"/", "/nowhere", "/cwd", "/cwd/sub"}
+
+    def m_abspath(q):
+        return posixpath.normpath(posixpath.join(CWD, q))
 
     def interp():
         I = merge.new_interp(unwind=8)
@@ -367,7 +373,8 @@ def file_check(args):
         I.ctx.pre_solver = harness.solver(60000)
         I.ctx.pre_solver.add(*pre_c)
         I.models[open] = lambda I_, path, mode="r", encoding=None: _MFile(fs, path, mode)
-        I.models[os.path.isdir] = lambda I_, q: q == os.path.dirname(PATH)      # the directory exists, the path is not one
+        I.models[os.path.isdir] = lambda I_, q: q != "" and m_abspath(q) in DIRS   # the directory exists, the path is not one
+        I.models[os.path.abspath] = lambda I_, q: m_abspath(q)
         I.models[os.path.isfile] = lambda I_, q: False                            # fresh file
         I.models[str] = lambda I_, x: x if isinstance(x, _Tmpl) else str(x)
         return I
@@ -375,8 +382,8 @@ def file_check(args):
     I.call_function(utils.write_rankings, [lines, PATH])
     STATS.encoded.update(I.ctx.encoded)
     if PATH not in fs:
-        return [{"signature": {"site": "write_rankings", "class": "nothing-written"}, "kind": "file", "what": "write_rankings wrote nothing to a fresh path in an existing directory",
-                 "rankings": None, "spec": [list(map(list, x)) for x in spec_lines]}]
+        return [{"signature": {"site": "write_rankings", "class": "nothing-written"}, "kind": "file", "what": f"write_rankings wrote nothing to the fresh path {PATH!r} (working directory {CWD}, existing directories {sorted(DIRS)})",
+                 "rankings": None, "path": PATH, "spec": [list(map(list, x)) for x in spec_lines]}]
     calls = []
 
     def parser(kind):
@@ -488,6 +495,9 @@ def _file_rt(rk, path):
     return True, "same rankings read back"
 
 
+PATH_FORMS = ["dataset.txt", "./dataset.txt", "sub/dataset.txt", "../nowhere/dataset.txt", "/cwd/sub/../d.txt", "/dataset.txt"]
+
+
 def dispatch(a):
     return {"t": totality, "r": roundtrip, "c": concrete_roundtrip, "w": wrapper_totality, "f": file_check, "fc": concrete_file_roundtrip,
             "d": decision_lemma}[a[0]](a[1])
@@ -509,6 +519,11 @@ def run(run):
         for refuse in [None] + list(range(len(f))):
             jobs.append(("f", (f, refuse)))
             nfile += 1
+    # the ways a caller can name a fresh file in an existing directory (modelled working directory /cwd)
+    for form in PATH_FORMS:
+        for f in files[1:3]:
+            jobs.append(("f", (f, None, form)))
+            nfile += 1
     for shape in SHAPES:
         for brace in (True, False):
             n = sum(shape)
@@ -527,7 +542,7 @@ def run(run):
                        "file check: both parsers stubbed (assume-guarantee with the parser-level round trip); removal of the two-character "
                        "pattern backslash-newline modelled as the identity under the proved side condition that it does not occur"]
     run.outside = ["strings longer than the bounds", "code points >= 128 (Unicode whitespace / digits)",
-                   "the operating system's file layer (open / read / write are a buffer of code points; os.path answers 'fresh file in an existing directory'); files of more than 3 rankings; "
+                   "the operating system's file layer (open / read / write are a buffer of code points; os.path answers from a modelled tree: working directory /cwd, a handful of existing directories, the file fresh, named by an absolute path, a bare name, ./name, sub/name, ../dir/name); files of more than 3 rankings; "
                    "Dataset equality of the objects read back (C17) - rankings are compared bucket by bucket",
                    "the int-or-string decision above the parser: its predicate is an [S] lemma (names of <= 4 characters), its use in "
                    "Ranking.from_string / Dataset is exercised on concrete instances (incl. names that start with digits, signs, decimals)"]
@@ -564,8 +579,18 @@ def replay(p):
             path = os.path.join(tmp, "dataset.txt")
             if p.get("rankings") is None:
                 from corankco.dataset import Dataset
-                Dataset.from_raw_list([[{1}, {2}]]).write(path)
-                return not os.path.isfile(path), f"file written: {os.path.isfile(path)}"
+                form = p.get("path", "/nowhere/dataset.txt")
+                # the modelled tree rebuilt under a scratch root: <tmp>/cwd is the working directory
+                for d in ("cwd/sub", "nowhere"):
+                    os.makedirs(os.path.join(tmp, d))
+                path = tmp + form if form.startswith("/") else form
+                old = os.getcwd()
+                os.chdir(os.path.join(tmp, "cwd"))
+                try:
+                    Dataset.from_raw_list([[{1}, {2}]]).write(path)
+                    return not os.path.isfile(path), f"write({path!r}) from {os.getcwd()}: file written: {os.path.isfile(path)}"
+                finally:
+                    os.chdir(old)
             ok, detail = _file_rt(p["rankings"], path)
             return (not ok), detail
         finally:
